@@ -202,6 +202,7 @@ def run(tier, seed):
     cases, meta = [], []
     st = dict(programs=0, answer_sets=0, target_atoms=0, other_atoms=0, readback=0, readback_skipped=0)
     readback_jobs = []
+    strict_jobs, strict_fail = [], []
     for (name, text, sents), r in zip(specs, res):
         if r is None:
             continue
@@ -272,10 +273,36 @@ def run(tier, seed):
             if sorted(lines) != sorted(exp_lines):
                 rep.violation('parse_model does not print exactly one sentence per atom of a defined concept',
                               dict(text=text, explanation=whole, atoms=[p[0] for p in per]))
+            declared = set(re.findall(r'^An? (\w+) is identified by', text, re.M))
+            dsel = [(a, sn) for a, pd, ar, sn in per if ar is not None and pd in declared and sn and not sn.startswith('EXC')]
+            if dsel and all(ord(c) < 128 for a, sn in dsel for c in sn):
+                dl = [l for l in text.split('\n') if re.match(r'^An? \w+ is identified by', l)]
+                strict_jobs.append((name, text, '\n'.join(dl + [sn for _, sn in dsel]) + '\n', sorted(a for a, _ in dsel), declared))
             # read-back for wide-generator specifications (every concept is declared)
             if sents is not None and lines:
                 decls = [s['text'] for s in sents if s['kind'] == 'declaration']
                 readback_jobs.append((text, '\n'.join(decls + lines) + '\n', sorted(a for a, p, ar, s in per if ar is not None), targets))
+    # strict read-back for declared concepts: declarations + the sentences of the atoms of declared concepts must compile to a program
+    # whose single answer set holds exactly those atoms
+    if strict_jobs:
+        sel = [j for j in strict_jobs if j[0].startswith('regressions/c15_')] + [j for j in strict_jobs if not j[0].startswith('regressions/c15_')]
+        sel = sel[:(300 if tier == 'thorough' else 50)]
+        sres = impl.compile_many([j[2] for j in sel])
+        st['strict_readback'] = 0
+        for (name, text, rtext, atoms, preds), r in zip(sel, sres):
+            info = dict(text=text, explanation_read_back=rtext, atoms=atoms[:20])
+            st['strict_readback'] += 1
+            if r[0] != 'ok':
+                strict_fail.append(('the explanation of the atoms of declared concepts is rejected when read back under the same declarations', dict(info, result=list(r[:3]))))
+                continue
+            try:
+                ms = solve.answer_sets(r[1], limit=3)
+            except solve.SolveError as e:
+                strict_fail.append(('the explanation of the atoms of declared concepts, read back, is rejected by clingo', dict(info, program=r[1], error=str(e)[:200])))
+                continue
+            got = [sorted(a for a in m if a.split('(')[0] in preds) for m in ms]
+            if len(ms) != 1 or got[0] != atoms:
+                strict_fail.append(('reading the explanation back does not give exactly the explained atoms of the declared concepts', dict(info, program=r[1], got=got[:2])))
     # read-back
     rb = impl.compile_many([j[1] for j in readback_jobs[:(400 if tier == 'thorough' else 60)]])
     for (text, rtext, atoms, targets), r in zip(readback_jobs, rb):
@@ -294,6 +321,21 @@ def run(tier, seed):
                 rep.known_finding('F-C15-readback', findings['F-C15-readback']['summary'])
             else:
                 rep.cov.setdefault('readback_mismatches', []).append(dict(explanation=rtext[-600:], expected=atoms[:12], got=got[:1]))
+    rep.cov['strict_readback_failures'] = len(strict_fail)
+    nsv = 0
+    for what, info in strict_fail:
+        sents_ = [l for l in info['explanation_read_back'].split('\n') if l and not re.match(r'^An? \w+ is identified by', l)]
+        vals = [v for a in info['atoms'] for v in re.findall(r'[(,]("(?:[^"\\]|\\.)*"|[^,()]+)', a)]
+        if 'F-C15-readback-value-not-a-word' in findings and any(not re.match(r'^("[a-z][a-z0-9_]*"|-?\d+|[a-z][A-Za-z0-9_]*)$', v) for v in vals):
+            # trigger: an explained value is a quoted string that is not a lower-case word (blank, upper-case initial, punctuation)
+            rep.known_finding('F-C15-readback-value-not-a-word', findings['F-C15-readback-value-not-a-word']['summary'])
+        elif 'F-C15-readback-declared-concept-as-relation' in findings and any(not l.startswith('There is ') for l in sents_):
+            # trigger: the atom of a DECLARED concept is explained with a subject-verb sentence instead of 'There is <concept> ...'
+            rep.known_finding('F-C15-readback-declared-concept-as-relation', findings['F-C15-readback-declared-concept-as-relation']['summary'])
+        else:
+            nsv += 1
+            if nsv <= 2:
+                rep.violation(what, info)
     if meta:
         rep.sample(meta[0]); rep.sample(meta[len(meta) // 2])
     tie_broken = []
